@@ -74,8 +74,12 @@ func gParamList(rt *rapid.T, label string, max int, valAlpha string, reserved ma
 	used := map[string]bool{}
 	for i := 0; i < n; i++ {
 		k := gFromAlphabet(rt, label+".k", tokAlpha+"-._!~*'+", 1, 6)
-		if reserved[strings.ToLower(k)] || used[k] {
+		if reserved[strings.ToLower(k)] {
 			k = "x" + strconv.Itoa(i) + k
+		}
+		// the grammar does not forbid repeating a parameter name: do it now and then
+		if len(out) > 0 && rapid.IntRange(0, 7).Draw(rt, label+".dup") == 0 {
+			k = out[rapid.IntRange(0, len(out)-1).Draw(rt, label+".dupof")].K
 		}
 		used[k] = true
 		p := AParam{K: k}
